@@ -372,6 +372,15 @@ def call(node: ast.Call, env: Env) -> Term:
     if isinstance(f, ast.Attribute) and isinstance(f.value, ast.Name) and f.value.id in ("itertools", "functools", "operator", "collections", "math", "bisect") and f.value.id not in env.names:
         # itertools.islice(..) and islice(..) are the same call
         return call(ast.Call(func=ast.Name(id=f.attr, ctx=ast.Load()), args=node.args, keywords=node.keywords), env)
+    if isinstance(f, ast.Attribute) and f.attr in ("contains", "avoids") and len(node.args) == 1 and not node.keywords and isinstance(node.args[0], ast.Starred):
+        # the package's variadic containment tests (Perm / MeshPatt .contains(*ps), .avoids(*ps)) are conjunctions over their
+        # arguments: p.contains(*G) == all(p.contains(g) for g in G)
+        sv = node.args[0].value
+        if isinstance(sv, ast.Call) and isinstance(sv.func, ast.Name) and sv.func.id in ("tuple", "list") and len(sv.args) == 1 and not sv.keywords:
+            sv = sv.args[0]
+        if isinstance(sv, (ast.GeneratorExp, ast.ListComp)):
+            one = lambda e: call(ast.Call(func=f, args=[sv.elt], keywords=[]), e)  # noqa: E731
+            return quantify("forall", list(sv.generators), one, env)
     if isinstance(f, ast.Attribute):
         recv = T(f.value, env)
         name = f.attr
@@ -508,6 +517,15 @@ def body_term(stmts: Sequence[ast.stmt], env: Env) -> Term:
                 return mk_or([("exists", dom, c), after])
             if k == FALSE:
                 return mk_and([("forall", dom, neg(c)), after])
+        # nested search loops:  for v in D: for w in E(v): if C: return K
+        nested = _nested_search(st, env)
+        if nested is not None:
+            k, ex = nested
+            after = body_term(rest, env)
+            if k == TRUE:
+                return mk_or([ex, after])
+            if k == FALSE:
+                return mk_and([neg(ex), after])
         # `for v in D: return K` – the first element decides (non-emptiness)
         if len(st.body) == 1 and isinstance(st.body[0], ast.Return):
             inner = env.child()
@@ -537,6 +555,31 @@ def body_term(stmts: Sequence[ast.stmt], env: Env) -> Term:
     if isinstance(st, ast.Raise):
         return ("raise", unparse(st.exc.func) if isinstance(st.exc, ast.Call) else unparse(st.exc) if st.exc else "")
     raise Unrecognised(f"statement {type(st).__name__}: {unparse(st)[:60]}")
+
+
+def _nested_search(st: ast.For, env: Env):
+    """(K, Exists v in D: Exists w in E: C) for `for v in D: for w in E: if C: return K` (two or more loop levels,
+    constant K); None when the statement is not of that shape."""
+    if st.orelse or len(st.body) != 1:
+        return None
+    inner = env.child()
+    dom = ("iter", T(st.iter, env))
+    bind_target(st.target, inner)
+    b = st.body[0]
+    if isinstance(b, ast.For):
+        sub = _nested_search(b, inner)
+        if sub is None:
+            if len(b.body) == 1 and isinstance(b.body[0], ast.If) and not b.body[0].orelse and not b.orelse and len(b.body[0].body) == 1 and isinstance(b.body[0].body[0], ast.Return) \
+                    and isinstance(b.body[0].body[0].value, ast.Constant) and isinstance(b.body[0].body[0].value.value, bool):
+                inner2 = inner.child()
+                dom2 = ("iter", T(b.iter, inner))
+                bind_target(b.target, inner2)
+                k = T(b.body[0].body[0].value, inner2)
+                return k, ("exists", dom, ("exists", dom2, T(b.body[0].test, inner2)))
+            return None
+        k, ex = sub
+        return k, ("exists", dom, ex)
+    return None
 
 
 def _only_rebinds(stmts: Sequence[ast.stmt]) -> bool:
